@@ -22,7 +22,7 @@ STAGES = {
 
 PLACEMENTS = ["top", "block", "if_accept", "if_reject", "switch_case", "switch_default", "loop_body",
               "continuing", "nested", "nested_loop_if"]
-CALL_FORMS = ["stmt", "let", "cond", "arg", "discard"]
+CALL_FORMS = ["stmt", "let", "cond", "arg", "discard", "fwd", "ptr"]
 
 
 def place(stmt, where, uid):
@@ -62,6 +62,10 @@ def call_text(j, form, uid):
         return "_ = h%d(h%d(2.0));" % (j, j)
     if form == "discard":
         return "_ = h%d(3.0);" % j
+    if form == "fwd":
+        return "fw%d();" % j      # fw<j>() { hv<j>(); } : a helper whose expression arena is empty
+    if form == "ptr":
+        return "var pv_%d: f32 = 0.5; hp%d(&pv_%d);" % (uid, j, uid)      # helper taking a pointer parameter
     raise ValueError(form)
 
 
@@ -85,7 +89,7 @@ class Program:
             if it[0] == "acc":
                 g = it[1]
                 if g == "pc":
-                    st = "_ = %s;" % self.push_constant[0]
+                    st = ["_ = %s;", "_ = %s;", "let pp_{u} = &%s;"][it[2] % 3].replace("{u}", str(u)) % self.push_constant[0]
                 else:
                     name, kind = self.globals[g][0], self.globals[g][1]
                     forms = RES[kind][1]
@@ -105,6 +109,8 @@ class Program:
             b = self.body(items)
             out.append("fn h%d(x: f32) -> f32 {\n%s  return x;\n}" % (j, b))
             out.append("fn hv%d() {\n  _ = h%d(0.0);\n}" % (j, j))
+            out.append("fn fw%d() {\n  hv%d();\n}" % (j, j))
+            out.append("fn hp%d(q: ptr<function, f32>) {\n  *q = h%d(*q);\n}" % (j, j))
         for name, stage, items in self.entries:
             out.append(STAGES[stage].format(n=name, b=self.body(items)))
         return "\n".join(out) + "\n"
